@@ -364,3 +364,48 @@ def stores_through_helpers(methods, fnode, field, depth=3, bind=None):
                     b2[k.arg] = subst(k.value)
             out.extend(stores_through_helpers(methods, callee, field, depth - 1, b2))
     return out
+
+
+def _affine(e):
+    """expression -> (symbolic part text or '', integer offset); None when not of the form  sym (+|-) const"""
+    if isinstance(e, ast.Constant) and isinstance(e.value, int) and not isinstance(e.value, bool):
+        return ('', e.value)
+    if isinstance(e, ast.UnaryOp) and isinstance(e.op, ast.USub):
+        a = _affine(e.operand)
+        return ('', -a[1]) if a is not None and a[0] == '' else None
+    if isinstance(e, ast.BinOp) and isinstance(e.op, (ast.Add, ast.Sub)):
+        a, b = _affine(e.left), _affine(e.right)
+        if a is None or b is None:
+            return None
+        sgn = 1 if isinstance(e.op, ast.Add) else -1
+        if b[0] == '':
+            return (a[0], a[1] + sgn * b[1])
+        if a[0] == '' and sgn == 1:
+            return (b[0], a[1] + b[1])
+        return None
+    return (norm_text(e), 0)
+
+
+def range_triple(it):
+    """iterator expression -> ((sym, off) start, (sym, off) stop, int step) for range(...) and reversed(range(...)) with unit
+    step; None for anything else.  `reversed(range(1, n + 1))` and `range(n, 0, -1)` give the same triple."""
+    rev = False
+    if isinstance(it, ast.Call) and isinstance(it.func, ast.Name) and it.func.id == 'reversed' and len(it.args) == 1 and not it.keywords:
+        rev, it = True, it.args[0]
+    if not (isinstance(it, ast.Call) and isinstance(it.func, ast.Name) and it.func.id == 'range' and 1 <= len(it.args) <= 3 and not it.keywords):
+        return None
+    a = [_affine(x) for x in it.args]
+    if any(x is None for x in a):
+        return None
+    start, stop, step = ('', 0), None, 1
+    if len(a) == 1:
+        stop = a[0]
+    else:
+        start, stop = a[0], a[1]
+        if len(a) == 3:
+            if a[2][0] != '' or a[2][1] not in (1, -1):
+                return None
+            step = a[2][1]
+    if rev:
+        start, stop, step = (stop[0], stop[1] - step), (start[0], start[1] - step), -step
+    return (start, stop, step)
